@@ -3,6 +3,7 @@ from .. import common as C, structs as S, clientgen as G
 from .c07 import run_histories, tok
 
 LEAN_MODULES = ["ZvtVerif.Properties.C20"]
+NEEDS_RELEASE = True
 TRANSLATED = {"structs", "sequences", "errors"}      # translated tables this property consumes (a translator problem elsewhere does not break its tie)
 ASSUMPTIONS = ["fault-free transport; oracle = abstract specification (clientgen.Abs) + explicit identification check on the implementation's results"]
 
@@ -58,7 +59,7 @@ def run(ctx, out):
         for k, entries in q.items():
             q2[k] = [e if e is not None else G.Abs(spec, cfg, {}, ts, tt).replies(k) for e in entries]
         fixed.append((cfg, calls, q2, ts, tt))
-    ops, impl = run_histories(ctx, out, fixed, "abort handling")
+    ops, impl = run_histories(ctx, out, fixed, "abort handling", release=True)
     # a slow but talking terminal: every item 14 virtual seconds after the previous one (far less than the 60 s per-packet
     # time-out; the 4 items of the handshake stay within its 60 s guard), the whole reply script lasting longer than 60 s
     # — the abort must surface all the same
